@@ -41,7 +41,9 @@ def rand_dep_recipe(rng, i, benign_head=False):
     if rng.random() < 0.1:
         r["version_object"] = True
     s = rng.random()
-    if s < 0.3:
+    if s < 0.08:
+        r["source"] = {"package": None, "subdir": "lib/" + hs(rng)}   # the documented way of naming a plain directory
+    elif s < 0.3:
         r["source"] = {"subdir": "lib/" + hs(rng)}  # a NUL is not a valid path character (os.path.realpath rejects it)
     elif s < 0.5:
         r["source"] = {"package": "htmltools", "subdir": hs(rng)}  # the package must be importable: URLs are computed from it
@@ -51,6 +53,11 @@ def rand_dep_recipe(rng, i, benign_head=False):
         r["source"]["subdir"] = r["source"]["subdir"].replace("\x00", "")
     if rng.random() < 0.7:
         r["script"] = [dict({"src": "s%d" % k + hs(rng)}, **({"type": hs(rng)} if rng.random() < 0.3 else {})) for k in range(rng.randint(1, 3))]
+        if rng.random() < 0.3:
+            # optional attributes in the order the author wrote them (before and after the file name)
+            extra = rng.sample([("defer", ""), ("async", ""), ("integrity", "sha-x"), ("crossorigin", "anonymous"), ("type", "module"), ("zlast", "z"), ("Accept", "a")], rng.randint(1, 3))
+            item = r["script"][-1]
+            r["script"][-1] = dict(extra[:1] + list(item.items()) + extra[1:]) if rng.random() < 0.5 else dict(list(item.items()) + extra)
         if rng.random() < 0.3:
             r["script"] = r["script"][0]
     if rng.random() < 0.5:
@@ -96,9 +103,15 @@ def head_markup(dep):
     return None if dep.head is None else ht.TagList(dep.head).get_html_string()
 
 
+def _ordered(items):
+    """Item dicts with their keys IN ORDER (the order of an item's attributes is the order of the attributes of the tag written for it)."""
+    return [list(d.items()) if isinstance(d, dict) else d for d in items] if isinstance(items, (list, tuple)) else items
+
+
 def fields(dep):
-    return {"name": dep.name, "version": str(dep.version), "source": dep.source, "script": dep.script, "stylesheet": dep.stylesheet,
-            "meta": dep.meta, "all_files": dep.all_files, "head": head_markup(dep)}
+    return {"name": dep.name, "version": str(dep.version), "source": list(dep.source.items()) if isinstance(dep.source, dict) else dep.source,
+            "script": _ordered(dep.script), "stylesheet": _ordered(dep.stylesheet),
+            "meta": _ordered(dep.meta), "all_files": dep.all_files, "head": head_markup(dep)}
 
 
 def hot(recipe):
@@ -421,7 +434,8 @@ def run(ctx):
         n = rng.randint(1, 4)
         recipes = [rand_dep_recipe(rng, k) for k in range(n)]
         order = [rng.randrange(n) for _ in range(rng.randint(1, 5))]
-        pieces = ["<p>piece%d;%s</p>" % (k, rng.choice(["", "\n", "<script>var x = 1;</script>", " text & more ", "<!-- c -->"])) for k in range(len(order) + 1)]
+        pieces = ["<p>piece%d;%s</p>%s" % (k, rng.choice(["", "\n", "<script>var x = 1;</script>", " text & more ", "<!-- c -->", "<pre>\n\n\n\nkept</pre>", "\t \n"]),
+                                         rng.choice(["", "", "\n", "\n\n", "\n\n\n", "\r\n\r\n\r\n", "  "])) for k in range(len(order) + 1)]
         if rng.random() < 0.3:
             pieces[rng.randrange(len(pieces))] = ""
         indent = rng.choice([None, None, 0, 1, 2, 4, 8])
